@@ -223,12 +223,16 @@ def seed_rules(an: Analysis, rep):
                 dev = c04._args_evaluator(an, dfn)
                 eev = c04._args_evaluator(an, efn)
                 diffs2 = []
-                for mdl in models:
-                    nd = dev(dec_cnt, dparam, mdl)
-                    ne = len(tuple(eev(enc_seq, ebase, {"args": _Obj(mdl)})))
-                    if nd != ne:
-                        shown = ", ".join(f"{k}={v!r}" for k, v in mdl.items() if v)
-                        diffs2.append(f"Args({shown}): the decoder pre-marks {nd} slot(s), the encoder pre-assigns {ne}")
+                from sa.analysis import VERSIONS as _VS9, vname as _vn9
+                for _V9 in _VS9:
+                    for mdl in models:
+                        if mdl["positional_only"] and _V9 < (3, 8):
+                            continue
+                        nd = dev(dec_cnt, dparam, mdl, version=_V9)
+                        ne = len(tuple(eev(enc_seq, ebase, {"args": _Obj(mdl)}, version=_V9)))
+                        if nd != ne:
+                            shown = ", ".join(f"{k}={v!r}" for k, v in mdl.items() if v)
+                            diffs2.append(f"[{_vn9(_V9)}] Args({shown}): the decoder pre-marks {nd} slot(s), the encoder pre-assigns {ne}")
                 rep.add("R09.2", "parameter seeds have the same length on both sides (folded over Args models)", not diffs2, loc(dfn.module, dec_cnt),
                         f"`{norm_src(dec_cnt)}` == len(`{norm_src(enc_seq)[:40]}`) on {len(models)} models" if not diffs2 else
                         f"{diffs2[0]}: the first local after the parameters counts as already met - when no instruction uses it (`return n; a = 1`) it is not listed as unreferenced and vanishes "
@@ -433,6 +437,17 @@ def unreferenced_rules(an: Analysis, rep):
                         "no entry is skipped" if not skips else "the loop over the unreferenced entries skips some of them (`continue`)")
     if n_cons == 0:
         raise AnalysisError(f"no consumer of {gen.qual} found in the decode closure")
+    # the generator marks what it reports as met (it ranks each entry through the rank function): a table can be walked once
+    for g2 in an.closure("from_code"):
+        walks = {}
+        for c in ast.walk(g2.node):
+            if isinstance(c, ast.Call) and isinstance(c.func, ast.Attribute) and c.func.attr == gen.name and not c.args and g2.cls is not f.cls:
+                walks.setdefault(norm_src(c.func.value), []).append(c)
+        for recv, cs in sorted(walks.items()):
+            rep.add("R09.3", f"{g2.qual}::the unreferenced entries of {recv} are walked once", len(cs) == 1, loc(g2.module, cs[-1] if len(cs) > 1 else cs[0]),
+                    "one walk" if len(cs) == 1 else
+                    f"`{recv}.{gen.name}()` is called {len(cs)} times (lines {[c.lineno for c in cs]}): the generator ranks every entry it reports through `{f.name}`, which marks it as met - "
+                    f"the second walk reports nothing, so the unreferenced entries (an unused constant, a nested code object behind a `return`) are missing from the data")
     rep.add("R09.3", f"{gen.qual}::ranges over every index of the table", ok_range, loc(gen.module, gen.node),
             "for i in range(len(table))" if ok_range else "does not range over every index of the table")
     rep.add("R09.3", f"{gen.qual}::yields exactly the never-met indices", ok_guard, loc(gen.module, gen.node),
@@ -480,11 +495,13 @@ def table_sequences_rule(an: Analysis, rep, rule="R09.7"):
             return r[1].node
         return None
     methods = {m.name: m.node for m in ci.methods.values() if isinstance(m.node, ast.FunctionDef)}
-    T = ("a", "b", "c", "d")
-    SEQS = [[0, 1, 2, 3], [0, 0, 1, 1], [2, 0, 2, 1, 0], [1], [], [3, 3, 0], [0, 1]]
+    T0 = ("a", "b", "c", "d")
+    # (-1, -2, 0, 1): hash(-1) == hash(-2) in CPython - distinct entries whose hashes collide are distinct entries
+    RUNS = [(T0, q) for q in ([0, 1, 2, 3], [0, 0, 1, 1], [2, 0, 2, 1, 0], [1], [], [3, 3, 0], [0, 1])] + [((-1, -2, 0, 1), [0, 1, 2, 3])]
+    SEQS = RUNS
     bad_rank, bad_unref = [], []
     n_calls = 0
-    for seq in SEQS:
+    for T, seq in RUNS:
         ev = ObjEval(resolve, extra={}, methods=methods)
         ev.module_assigns = ci.module.assigns
         obj = Obj()
@@ -565,7 +582,7 @@ def table_sequences_rule(an: Analysis, rep, rule="R09.7"):
             f"{bad_dup[0]}: the encoder finds entries again by value, so both operands are encoded as the first occurrence and the table comes out one entry short "
             f"(two NaN constants; a hand-altered co_names ('print', 'print') - co_names shrinks, silently)")
     rep.add(rule, f"{rank.qual}::first-use rank on witness call sequences", not bad_rank, loc(rank.module, rank.node),
-            bad_rank[0] if bad_rank else f"{len(SEQS)} call sequences over a table of {len(T)} distinct entries: entry and override as specified on every call")
+            bad_rank[0] if bad_rank else f"{len(SEQS)} call sequences over tables of distinct entries (one with colliding hashes): entry and override as specified on every call")
     rep.add(rule, f"{unref.qual}::unreferenced entries on witness call sequences", not bad_unref, loc(unref.module, unref.node),
             bad_unref[0] if bad_unref else f"lists exactly the never-met entries with first-use overrides after each of the {len(SEQS)} sequences ({n_calls} calls evaluated)")
 
